@@ -322,7 +322,9 @@ def check_C04(ctx, w):
     tests += rnd_tests(ctx, ctx.q(200, 3000), nops=ctx.q(25, 50), p_reopen=0.2, abandon=True)
     tests += sim_tests(ctx, w, "sim", ctx.q(64, 1600), slots=3, kvals=3, avals=2, maxbatch=1, maxops=ctx.q(8, 12), bfilter="NoBatch", get=False)
     tests += aux_tests(ctx, ctx.q(100, 1500), mc=ctx.rng.sample(tests, min(len(tests), ctx.q(300, 3000))), nops=ctx.q(25, 40), p_reopen=0.2, abandon=True)
-    seq_pipeline(ctx, w, tests, ["Conf_C04", "Conf_X"])
+    # "subsequent operations behave as if no restart had happened": on these restart-heavy histories the write and read
+    # oracles of the abstract map are evaluated as well (uniqueness, canonical case, reads, searches after the restart)
+    seq_pipeline(ctx, w, tests, ["Conf_C04", "Conf_X", "Conf_C01", "Conf_C02", "Conf_C03", "Conf_C16"])
 
 
 def check_C07(ctx, w):
@@ -344,6 +346,9 @@ def check_C16(ctx, w):
     tests = mc_tests(ctx, w, "mc", slots=2, kvals=3, avals=2, maxbatch=1, maxops=ctx.q(3, 4), bfilter="NoBatch", get=False, limit=ctx.q(2000, 30000),
                      convert_kw=dict(extra=3))
     tests += rnd_tests(ctx, ctx.q(200, 3000), nops=ctx.q(25, 40), case_heavy=True, fields=["N", "PX", "Z"], p_query=0.1)
+    # case constraints that only a custom schema can give: lower + unique on a plain string field, upper on an optional string (*string)
+    tests += rnd_tests(ctx, ctx.q(40, 600), label="cz", nops=ctx.q(25, 40), case_heavy=True, fields=["N", "Z"], p_query=0.1, cust=6)
+    tests += rnd_tests(ctx, ctx.q(40, 600), label="cr", nops=ctx.q(25, 40), case_heavy=True, fields=["N", "R"], p_query=0.1, cust=7)
     seq_pipeline(ctx, w, tests, ["Conf_C16"])
 
 
@@ -377,9 +382,10 @@ def check_C12(ctx, w):
             return c
         return f
     # (custom schemas 2 and 3 only change which fields are indexed: U loses its index, V gets one)
-    variants = [V(cache=True), V(**{"async": True}), V(gz=True, lc=True), V(plain=True), V(ext=".dat", cache=True, **{"async": True}), V(cust=2), V(cust=3, cache=True)]
+    variants = [V(cache=True), V(**{"async": True}), V(gz=True, lc=True), V(plain=True), V(ext=".dat", cache=True, **{"async": True}), V(cust=2), V(cust=3, cache=True),
+                V(asyncoff=True)]       # asynchronous-write settings present but switched off = synchronous
     if not ctx.quick:
-        variants += [V(plain=True, cache=True, gz=True), V(plain=True, lc=True, **{"async": True}), V(gz=True, ext=".x"), V(lc=True, cache=True)]
+        variants += [V(plain=True, cache=True, gz=True), V(plain=True, lc=True, **{"async": True}), V(gz=True, ext=".x"), V(lc=True, cache=True), V(asyncoff=True, cache=True, gz=True)]
     pair_pipeline(ctx, w, tests, variants)
 
 
@@ -555,7 +561,7 @@ def check_C08(ctx, w):
                 "switches runs under the Go race detector with no driver-side synchronisation at all; a case = one history; non-trivial = at least two goroutines with a write")
     binp = vlib.build()
     uni = gen.universe(binp)
-    n = ctx.q(400, 6000)
+    n = ctx.q(400, 40000)
     tests = [gen.conc_test(uni, ctx.rng, i, nthreads=ctx.rng.choice([3, 4]), nops=3) for i in range(n)]
     t1 = time.time()
     shards = vlib.run_harness(binp, tests, w.sub("run-lin"), per_test_timeout="10s", max_hangs=2)
@@ -580,7 +586,7 @@ def check_C08(ctx, w):
     ctx.samples.append({"history": tests[0]["id"], "cfg": tests[0]["cfg"], "threads": tests[0]["threads"]})
     # memory part: race detector
     rb = vlib.build(race=True)
-    nr = ctx.q(600, 8000)
+    nr = ctx.q(600, 40000)
     rtests = [gen.conc_test(uni, ctx.rng, i, nthreads=4, nops=4, race=True) for i in range(nr)]
     for t in rtests:
         t["id"] = "rc" + t["id"][2:]
@@ -607,8 +613,101 @@ def check_C08(ctx, w):
     ctx.extra_cov["race_detector_runs"] = len(rtests)
     ctx.extra_cov["race_reports"] = races
     log("  [race] %d concurrent programs under the race detector: %.1fs, %d reports" % (len(rtests), time.time() - t3, races))
+    # the race model: accesses to fields of the shared structures extracted from the current source, lock sets computed by TLC
+    new_races = race_model(ctx, w)
+    # every kind of call against a writer and against calls on a second collection (first access after Open), under the race detector;
+    # a larger corpus when the model reports a pair of accesses that is not in the justified baseline
+    st = gen.race_stress_tests(uni, ctx.rng, reps=ctx.q(40, 120) * (3 if new_races else 1))
+    if new_races:
+        st = st + [dict(t, id=t["id"] + "-b") for t in st] + [dict(t, id=t["id"] + "-c") for t in st]
+    t4 = time.time()
+    sshards = vlib.run_harness(rb, st, w.sub("run-stress"), env=dict(os.environ, GORACE="halt_on_error=1"), per_test_timeout="60s", max_hangs=2)
+    sbyid = {t["id"]: t for t in st}
+    sraces = 0
+    for part, tp in sshards:
+        cur, lines = None, []
+        for line in open(tp):
+            e = json.loads(line)
+            if e["ev"] == "reset":
+                cur, lines = e.get("id"), []
+            lines.append(line)
+            if e["ev"] in ("panic", "hang"):
+                if e["ev"] == "hang" and not confirm_hang(ctx, w, rb, sbyid.get(cur), env=dict(os.environ, GORACE="halt_on_error=1"), timeout="120s"):
+                    continue
+                sraces += 1
+                stx = (e.get("stack") or "") + (e.get("msg") or "")
+                f = vlib.Failure(cur, "DataRace" if ("DATA RACE" in stx or "concurrent map" in stx) else "NoPanic", len(lines) - 1, e, list(lines), stx[-1500:])
+                record_failure(ctx, w, f, sbyid.get(cur), ["NoRace"], "race-detector")
+    ctx.tests += len(st)
+    ctx.extra_cov["race_stress_runs"] = len(st)
+    log("  [race] %d stress programs (one kind of call x writer x second collection) under the race detector: %.1fs, %d reports" % (len(st), time.time() - t4, sraces))
+    if new_races and races + sraces == 0:
+        log("NOTE race-model: %d pair(s) of accesses outside the justified baseline were not reproduced by the race detector (potential races, not a verdict): %s" %
+            (len(new_races), "; ".join("%s written in %s [%s] vs %s in %s [%s]" % (r["loc"], r["w_site"], r["w_held"], r["o_kind"], r["o_site"], r["o_held"]) for r in new_races[:6])))
     ctx.assumptions = ["the race detector only reports races that occur in the executed schedules", "sequence numbers drawn before / after each call respect real-time order (atomic counter)",
                        "TLC explores all linearization points of spec/SodLin.tla"]
+
+
+RACE_CFG = """SPECIFICATION Spec
+CONSTANTS
+  T = 1
+  Entries = {%s}
+  Flusher = ""
+  FlushRounds = 0
+  MaxBack = 1
+INVARIANTS Collect
+POSTCONDITION RaceReport
+CHECK_DEADLOCK FALSE
+"""
+
+
+def race_model(ctx, w):
+    """Memory part of C08 at model level.  tools/extract -race emits, between the lock operations of every entry point and
+    goroutine, the accesses to fields of the structures reachable from a handle; TLC (spec/SodLock.tla, T = 1) explores every
+    program alone and collects every access with the EXACT set of locks held when it is made (every path); RaceSet = pairs
+    on the same location, one writing, with compatible lock sets.  Pairs listed in benign_races.json (location + writing
+    function, each with its justification) are artefacts of naming locations after types; anything else is a potential race:
+    it steers a larger race-detector corpus and is reported as a violation only if the detector confirms it."""
+    import shutil
+    facts, tla, out = vlib.extract_facts(w.sub("rfacts"))
+    d = w.sub("race-model")
+    for f in os.listdir(vlib.SPEC):
+        if f.endswith(".tla"):
+            shutil.copy(os.path.join(vlib.SPEC, f), d)
+    shutil.copy(os.path.join(os.path.dirname(tla), "race", "SodLockFacts.tla"), os.path.join(d, "SodLockFacts.tla"))
+    with open(os.path.join(d, "MCRace.tla"), "w") as f:
+        f.write("---- MODULE MCRace ----\nEXTENDS SodLock\nASSUME TLCSet(7, {})\n====\n")
+    names = [fld_name(p["name"]) for p in facts]
+    names = [n for n in names if n.startswith("DB_") or n.startswith("Search_") or n.startswith("go_at_")]
+    r = vlib.tlc("MCRace", RACE_CFG % ", ".join('"%s"' % n for n in names), d, workers=1, timeout=900, heap="8g", name="MCRace")
+    m = re.search(r'<<"RACESET", (\{.*?\})>>\n', r.out, re.S)
+    if not r.completed or not m:
+        log("NOTE race-model: TLC did not complete on the extracted access programs (model-level result unavailable):\n" + r.out[-1500:])
+        ctx.extra_cov["race_model"] = "unavailable"
+        return []
+    recs = re.findall(r'\[loc \|-> "([^"]*)", w_site \|-> "([^"]*)", w_prog \|-> "([^"]*)", w_held \|-> (\{.*?\}), o_kind \|-> "([^"]*)", o_site \|-> "([^"]*)", o_prog \|-> "([^"]*)", o_held \|-> (\{.*?\})\]', m.group(1), re.S)
+    with open(os.path.join(vlib.VERIF, "benign_races.json")) as f:
+        benign = {(b["loc"], b["writer"]) for b in json.load(f)["benign"]}
+    allp, new = set(), {}
+    for loc, ws, wp, wh, ok, os_, op, oh in recs:
+        key = (loc, ws.split("@")[0], ok, os_.split("@")[0])
+        allp.add(key)
+        if (loc, ws.split("@")[0]) not in benign and key not in new:
+            new[key] = dict(loc=loc, w_site=ws, w_prog=wp, w_held=re.sub(r"\s+", " ", wh), o_kind=ok, o_site=os_, o_prog=op, o_held=re.sub(r"\s+", " ", oh))
+    ctx.mc_states += r.distinct
+    ctx.mc_transitions += r.generated
+    nacc = sum(len(o.get("acc") or []) for p in facts for o in p["ops"])
+    ctx.extra_cov["race_model"] = {"programs": len(names), "states": r.distinct, "conflicting_pairs_compatible_locksets": len(allp), "in_justified_baseline": len(allp) - len(new), "outside_baseline": sorted("%s: %s / %s %s" % k for k in new)}
+    log("  [race model] %d programs explored alone (%d states): %d conflicting access pairs with compatible lock sets, %d in the justified baseline, %d outside" % (len(names), r.distinct, len(allp), len(allp) - len(new), len(new)))
+    for k, v in list(new.items())[:8]:
+        log("    potential race on %s: written in %s holding %s / %s in %s holding %s" % (v["loc"], v["w_site"], v["w_held"], v["o_kind"], v["o_site"], v["o_held"]))
+    return list(new.values())
+
+
+def fld_name(n):
+    for a, b in ((".", "_"), ("#", "_"), ("@", "_at_"), ("*", ""), ("(", ""), (")", ""), (":", "_")):
+        n = n.replace(a, b)
+    return n
 
 
 LOCK_CFG = """SPECIFICATION %(spec)s
@@ -848,7 +947,7 @@ def check_C14(ctx, w):
     ctx.rule = ("each of the 12 payload shapes (nil / empty / non-empty slices and maps, pointer chains, slices of pointers inside maps, interfaces holding maps, slices, pointers; "
                 "nested struct behind a pointer) is written (single and batch paths), then the caller's object, objects returned by Get / All, and one of two reads of the same object are "
                 "overwritten in place; TLC checks that every later sweep still equals the accepted values; distinct = distinct (payload shape, mutation kind, cache/async) combinations")
-    tests = gen_tests(ctx, ctx.q(400, 5000), gen.isolation_test, "iso", nobj=ctx.q(4, 6))
+    tests = gen_tests(ctx, ctx.q(400, 40000), gen.isolation_test, "iso", nobj=ctx.q(4, 6))
     seq_pipeline(ctx, w, tests, ["Conf_C14"])
     combos = set()
     for t in tests:
